@@ -27,8 +27,8 @@ ASSUMPTIONS = ['the admitted set is taken as observed through geos_within_constr
                'designs whose feasibility or discrete score entries are within 1e-9 of flipping are neither demanded nor forbidden',
                'scoring of brute-force designs uses a pristine second copy of the diagnostics code (formula anchored by C05/C06)']
 EXHAUSTIVE = {'quick': False, 'thorough': False}
-MINIMA = {'quick': {'prune_trap_cases': 15, 'rounding_window_cases': 12, 'prior_call_cases': 60, 'shared_data_searches': 40, 'compared': 200, 'brute_designs': 3000, 'distinct_nontrivial': 80, 'cases_with_pruning': 8},
-          'thorough': {'prune_trap_cases': 150, 'rounding_window_cases': 120, 'prior_call_cases': 500, 'shared_data_searches': 400, 'compared': 2500, 'brute_designs': 200000, 'distinct_nontrivial': 1000, 'cases_with_pruning': 100}}
+MINIMA = {'quick': {'searches_after_caller_edits': 40, 'prune_trap_cases': 15, 'rounding_window_cases': 12, 'prior_call_cases': 60, 'shared_data_searches': 40, 'compared': 200, 'brute_designs': 3000, 'distinct_nontrivial': 80, 'cases_with_pruning': 8},
+          'thorough': {'searches_after_caller_edits': 400, 'prune_trap_cases': 150, 'rounding_window_cases': 120, 'prior_call_cases': 500, 'shared_data_searches': 400, 'compared': 2500, 'brute_designs': 200000, 'distinct_nontrivial': 1000, 'cases_with_pruning': 100}}
 N = {'quick': 640, 'thorough': 4800}
 CASE_TIMEOUT = {'quick': 300, 'thorough': 1200}
 
@@ -177,8 +177,11 @@ def run_case(spec):
             counters['rounding_window_cases'] += 1
   shared = spec['idx'] % 4 == 1
   prior = spec['idx'] % 6 == 3
-  rec = sl.run_search(case, 'exhaustive', interleave=(r if shared else None), prior_calls=(['exhaustive', 'greedy'] if prior else None))
+  edits = spec['idx'] % 8 == 4       # results of an earlier search (objects of its own) edited in place by the caller
+  rec = sl.run_search(case, 'exhaustive', interleave=(r if shared else None), prior_calls=(['exhaustive', 'greedy'] if prior else None),
+                      scribble_prior=(['exhaustive'] if edits else None))
   counters['prior_call_cases'] += bool(prior)
+  counters['searches_after_caller_edits'] += bool(rec.get('scribbled'))
   counters['shared_data_searches'] += bool(rec.get('interleaved'))
   desc = sl.describe(case, with_frame=False)
   if not rec['outcome'].ok or rec['designs'] is None or rec['admitted'] is None:
